@@ -18,6 +18,10 @@ import Skc.Tie.rank_values
 import Skc.Tie.electre1_outrank
 import Skc.Tie.electre1_kernel
 import Skc.Tie.fmf
+import Skc.Tie.wsm_refuses
+import Skc.Tie.wpm_refuses
+import Skc.Tie.fmf_refuses
+import Skc.Tie.multimoora_refuses
 import Skc.Tie.weights_outrank
 import Skc.Tie.electre2_wor
 import Skc.Tie.electre2_strong
@@ -138,6 +142,19 @@ theorem rank_values_reverse (v : Vec n α) (i j : Nat) (hi : i < (List.ofFn v).l
       (List.ofFn v)[j] < (List.ofFn v)[i] := by
   have h := C03.rankValues_reverse_lt_iff (List.ofFn v) i j hi hj
   simpa only [tie_rank_values] using h
+/-! ### C04, the refusal clause: when do the decision makers raise `ValueError`, as read from their `_evaluate_data` -/
+
+theorem wsm_refuses_iff (A : Mat m n α) (o : Vec n Obj) :
+    Gen.wsm_refuses ⟨A⟩ (objs o) = true ↔ (∃ j, o j = .min) ∨ ∃ i j, A i j < 0 := by
+  unfold objs; rw [tie_wsm_refuses]; exact C04.wsm_refuses_iff A o
+theorem wpm_refuses_iff (A : Mat m n α) (o : Vec n Obj) :
+    Gen.wpm_refuses ⟨A⟩ (objs o) = true ↔ (∃ j, o j = .min) ∨ ∃ i j, A i j ≤ 0 := by
+  unfold objs; rw [tie_wpm_refuses]; exact C04.wpm_refuses_iff A o
+theorem fmf_refuses_iff (A : Mat m n α) : Gen.fmf_refuses ⟨A⟩ = true ↔ ∃ i j, A i j ≤ 0 := by
+  rw [tie_fmf_refuses]; exact C04.fmf_refuses_iff A
+theorem multimoora_refuses_iff (A : Mat m n α) : Gen.multimoora_refuses ⟨A⟩ = true ↔ ∃ i j, A i j ≤ 0 := by
+  rw [tie_multimoora_refuses]; exact C04.fmf_refuses_iff A
+
 /-! ### ELECTRE2: the weight comparison as specified and as called (known finding K1), the two relations -/
 
 /-- `weights_outrank` called as documented is the specified relation … -/
